@@ -350,8 +350,19 @@ def run(eng, R):
               and isinstance(n.stmt.value, ast.Call) and _txt(n.stmt.value.func) == "NexusFitter"]
         ok = len(mk) == 1
         if ok:
-            ok, _ = g.all_paths_pass(mk[0].id, lambda n: any(_self_call(c, "_restore_fitter_configuration") for c in _calls_in(n)))
             saved = [n for n in g.nodes if n.kind == "stmt" and isinstance(n.stmt, ast.Assign) and "_fitter" in _txt(n.stmt.value) and isinstance(n.stmt.targets[0], ast.Name)]
+            old = _txt(saved[0].stmt.targets[0]) if saved else "?"
+
+            def restores(n, old=old):
+                # the helper call, or (canonical program: helper written out) the loop that re-applies the old fitter's fixed parameters
+                if any(_self_call(c, "_restore_fitter_configuration") for c in _calls_in(n)):
+                    return True
+                return n.kind == "test" and _txt(n.expr) == "%s is not None" % old
+
+            ok, _ = g.all_paths_pass(mk[0].id, restores)
+            if ok and not any(_self_call(c, "_restore_fitter_configuration") for n in g.nodes for c in _calls_in(n)):
+                src_ = _txt(f.node)
+                ok = src_.all_like("for _k, _v in %s.fixed_parameters.items(): self._fitter.fix_parameter(_k, _v)" % old, "for _k, _l in %s.limited_parameters.items(): self._fitter.limit_parameter(_k, _l)" % old)
             ok = ok and bool(saved) and all(g.dominated_by(mk[0].id, lambda n, s=s_: n.id == s.id)[0] for s_ in saved[:1])
         R.ob("S-fix", "%s._initialize_fitter:configuration kept" % cls.name, ok, (f.file, f.lineno),
              "%s._initialize_fitter replaces the fitter without carrying over the fixed and limited parameters of the previous one (they are silently released)" % cls.name)
